@@ -455,7 +455,7 @@ def check(tier):
     chk = core.Check("C03", tier)
     chk.obligations(THEOREMS)
     rnd = core.rng("C03")
-    nscripts = {"quick": 600, "thorough": 8000}[tier]
+    nscripts = {"quick": 1500, "thorough": 8000}[tier]
     total = 0
     nontrivial = set()
     streams = {}
